@@ -122,6 +122,19 @@ def parseFaults (s : String) : Option Faults :=
 def outcomeStr : Outcome → String
   | .ok => "ok" | .verr => "verr" | .perr => "perr"
 
+/-- `ts=<keyref>/<notBefore>/<notAfter>,...` (seconds relative to now, signed). -/
+def parseTimed (rest : List String) : Option (List TimedSig) :=
+  match rest.find? (fun w => w.startsWith "ts=") with
+  | none => some []
+  | some w => (((w.drop 3).toString).splitOn ",").mapM fun e =>
+    match e.splitOn "/" with
+    | [k, a, b] => do
+      let k ← parseRef k
+      let a ← a.toInt?
+      let b ← b.toInt?
+      some { key := k, notBefore := a, notAfter := b }
+    | _ => none
+
 def doRun (st : State) (fs sg fl cr : String) (rest : List String := []) : State × String :=
   let xs : Option (List Extra) :=
     match rest.find? (fun w => w.startsWith "x=") with
@@ -129,9 +142,9 @@ def doRun (st : State) (fs sg fl cr : String) (rest : List String := []) : State
     | none => some []
   let fetch : Option (Option Fetch) :=
     if fs == "none" then some none else
-    match parseRefs fs, parseRefs sg, xs with
-    | some ks, some ss, some xs => some (some { keys := ks, signers := ss, extras := xs })
-    | _, _, _ => none
+    match parseRefs fs, parseRefs sg, xs, parseTimed rest with
+    | some ks, some ss, some xs, some ts => some (some { keys := ks, signers := effectiveSigners ss ts, extras := xs })
+    | _, _, _, _ => none
   let crash : Option (Option Nat) := if cr == "-" then some none else cr.toNat?.map some
   match fetch, parseFaults fl, crash with
   | some f, some fl, some cr =>
@@ -242,7 +255,7 @@ def step (st : State) (w : List String) : State × String :=
       match rest.find? (fun w => w.startsWith "x=") with
       | some w => parseExtras (w.drop 2).toString
       | none => some []
-    match st.sys.proc, parseRefs fs, parseRefs sg, xs with
+    match st.sys.proc, parseRefs fs, (parseRefs sg).bind (fun ss => (parseTimed rest).map (effectiveSigners ss)), xs with
     | some live, some ks, some ss, some xs =>
       -- a DNSKEY of another owner name in the trust set (only reachable when an anchor signed it for
       -- 30 days): verifyRootKeys' DS step over mixed owner names is not modelled
